@@ -43,7 +43,7 @@ def key_of(row):
 
 def run(chk):
     binary = vlib.build("tamper")
-    main = "session,hjky,redist,redistAnchor,gennaro,canetti,lindell22"
+    main = "session,hjky,redist,redistAnchor,redistNew,gennaro,canetti,lindell22"
     if chk.quick:
         jobs = [("q45971", ["-q", "45971", "-proto", main, "-seed", str(chk.seed)]),
                 ("q251", ["-q", "251", "-proto", main, "-seed", str(chk.seed + 100), "-stride", "3"]),
